@@ -208,7 +208,7 @@ func VerifDispatchAnyFields() {
 	verif14Options()
 	// index-carrying types on every torrent state class; the trivial types
 	// (bitfield, cancel, undefined) once, complete on two classes
-	nstates := verif.Bound("torrent_states", 1, 3) // 1 partial, 2 complete, (0 fresh)
+	nstates := verif.Bound("torrent_states", 2, 3) // 1 partial, 2 complete, (0 fresh)
 	c := verif.Choice("case", 4*nstates+5)
 	var ty p2p.Message_Type
 	state := 1
